@@ -1109,6 +1109,64 @@ func nestPrograms() []*Program {
 		p.Forks = []string{"Byzantium", "Berlin", "Shanghai"}
 		out = append(out, p)
 	}
+	// SELFDESTRUCT naming the contract itself: the ether is gone at that instruction, BALANCE afterwards sees 0
+	{
+		c := &code{}
+		c.pushN(0).pushN(0).pushN(0).pushN(0).pushN(0).pushAddr(CB).op(0x5a, 0xf1, 0x50)
+		c.pushAddr(CB).op(0x31).pushN(0).op(0x52)
+		c.pushN(0).pushN(0).pushN(1).pushN(0).pushN(0).pushAddr(CB).op(0x5a, 0xf1, 0x50) // a second call into the destructed code (one byte of calldata)
+		c.pushAddr(NX).op(0x31).pushN(0x20).op(0x52).pushN(0x40).pushN(0).op(0xf3)
+		p := base("nest:selfdestruct-to-self", c.b)
+		// CB: calldata empty -> SELFDESTRUCT(ADDRESS); otherwise send the whole balance to NX
+		cb := &code{}
+		cb.op(0x36).op(0x61, 0, 0)
+		fix := len(cb.b) - 2
+		cb.op(0x57, 0x30, 0xff)
+		d := len(cb.b)
+		cb.b[fix], cb.b[fix+1] = byte(d>>8), byte(d)
+		cb.op(0x5b).pushN(0).pushN(0).pushN(0).pushN(0).op(0x30, 0x31).pushAddr(NX).op(0x5a, 0xf1, 0x00)
+		p.Contracts[CB] = cb.b
+		p.Balances[CB] = big.NewInt(1000)
+		p.AllForks = true
+		out = append(out, p)
+	}
+	// the output window of a call is wider than what the callee hands back: the tail keeps what memory held before
+	for _, kind := range kinds {
+		for ti, tgt := range []common.Address{CB, NX, common.BytesToAddress([]byte{4})} {
+			c := &code{}
+			c.push(cw(13)).pushN(0x40).op(0x52).push(cw(13)).pushN(0x60).op(0x52).push(cw(13)).pushN(0x80).op(0x52)
+			c.pushN(0x60).pushN(0x40).pushN(0).pushN(0)
+			if kind == 0xf1 || kind == 0xf2 {
+				c.pushN(0)
+			}
+			c.pushAddr(tgt).op(0x5a, kind).pushN(0).op(0x52).pushN(0xc0).pushN(0).op(0xf3)
+			p := base(fmt.Sprintf("nest:outwindow-%x-t%d", kind, ti), c.b)
+			out = append(out, p)
+		}
+	}
+	// a failing call of every kind to a precompile address that exists as an empty account: the touch is rolled back with the frame,
+	// so the empty account is still there when the transaction is finalised (EIP-158/161)
+	for _, kind := range kinds {
+		for _, pc := range []byte{2, 9} {
+			c := &code{}
+			c.pushN(32).pushN(0x40).pushN(32).pushN(0)
+			if kind == 0xf1 || kind == 0xf2 {
+				c.pushN(0)
+			}
+			c.pushAddr(common.BytesToAddress([]byte{pc})).pushN(10).op(kind).pushN(0).op(0x52).pushN(0x60).pushN(0).op(0xf3)
+			p := base(fmt.Sprintf("nest:failed-%x-to-empty-precompile-%d", kind, pc), c.b)
+			p.Balances[common.BytesToAddress([]byte{pc})] = big.NewInt(0)
+			p.AllForks = true
+			out = append(out, p)
+		}
+	}
+	// top-level transfers in which sender and recipient coincide, with and without value (tracers that reconstruct the pre-state)
+	for _, v := range []int64{0, 1000} {
+		p := base(fmt.Sprintf("nest:toplevel-self-transfer-%d", v), []byte{0x00})
+		p.To = EO
+		p.Value = big.NewInt(v)
+		out = append(out, p)
+	}
 	// self-recursion with all the gas: before EIP-150 the 1024-frame depth limit is reached (the 1025th attempt is refused up front),
 	// afterwards the gas runs out around depth 900
 	{
